@@ -83,6 +83,8 @@ def truth_table_sweep(p, lam, seed, rnd, kinds=None):
     for g in BIN:
         x, y = rnd.randint(0, 1), rnd.randint(0, 1)
         p.load(0, x); p.load(1, y); p.gate(g, 0, 0, 1); p.load(0, x); p.gate(g, 1, 0, 1); p.load(1, y); p.gate(g, 2, 0, 0); p.gate(g, 0, 0, 0)
+    for x in (0, 1):                                   # NOT and COPY with the result being the input object itself
+        p.load(0, x); p.gate("NOT", 0, 0); p.dec(0); p.gate("NOT", 0, 0); p.gate("COPY", 0, 0); p.dec(0)
     p.load(0, 1); p.load(1, 0); p.load(2, 1)
     p.gate("MUX", 0, 0, 1, 2); p.load(0, 1); p.gate("MUX", 1, 0, 1, 2); p.load(1, 0); p.gate("MUX", 2, 0, 1, 2); p.gate("MUX", 3, 0, 0, 0)
     p.end()
